@@ -5,6 +5,8 @@
 package vrt
 
 import (
+	"reflect"
+	"bytes"
 	"time"
 	"encoding/json"
 	"fmt"
@@ -174,3 +176,429 @@ func Float64(name string) float64 {
 }
 
 func Float32(name string) float32 { return float32(Float64(name)) }
+
+// ---------------------------------------------------------------- JSON vocabulary
+
+// JSON is a parsed JSON value (natively: the encoding/json tree with json.Number).
+type JSON struct {
+	v  interface{}
+	ok bool
+}
+
+type kv struct {
+	k string
+	v interface{}
+}
+type objT []kv
+
+func parseValue(dec *json.Decoder) (interface{}, error) {
+	tok, err := dec.Token()
+	if err != nil {
+		return nil, err
+	}
+	switch t := tok.(type) {
+	case json.Delim:
+		switch t {
+		case '{':
+			var o objT
+			for dec.More() {
+				kt, err := dec.Token()
+				if err != nil {
+					return nil, err
+				}
+				v, err := parseValue(dec)
+				if err != nil {
+					return nil, err
+				}
+				o = append(o, kv{kt.(string), v})
+			}
+			if _, err := dec.Token(); err != nil {
+				return nil, err
+			}
+			if o == nil {
+				o = objT{}
+			}
+			return o, nil
+		case '[':
+			a := []interface{}{}
+			for dec.More() {
+				v, err := parseValue(dec)
+				if err != nil {
+					return nil, err
+				}
+				a = append(a, v)
+			}
+			if _, err := dec.Token(); err != nil {
+				return nil, err
+			}
+			return a, nil
+		}
+	}
+	return tok, nil
+}
+
+func ParseJSON(bs []byte) (JSON, bool) {
+	if !json.Valid(bs) {
+		return JSON{}, false
+	}
+	dec := json.NewDecoder(bytes.NewReader(bs))
+	dec.UseNumber()
+	v, err := parseValue(dec)
+	if err != nil {
+		return JSON{}, false
+	}
+	return JSON{v: v, ok: true}, true
+}
+
+// Kind: 0 null, 1 bool, 2 number, 3 string, 4 array, 5 object.
+func (j JSON) Kind() int {
+	switch j.v.(type) {
+	case nil:
+		return 0
+	case bool:
+		return 1
+	case json.Number:
+		return 2
+	case string:
+		return 3
+	case []interface{}:
+		return 4
+	case objT:
+		return 5
+	}
+	return -1
+}
+
+func (j JSON) IsInt() bool {
+	n, ok := j.v.(json.Number)
+	if !ok {
+		return false
+	}
+	_, err := n.Int64()
+	return err == nil
+}
+
+func (j JSON) Len() int {
+	switch x := j.v.(type) {
+	case []interface{}:
+		return len(x)
+	case objT:
+		return len(x)
+	}
+	return 0
+}
+
+func (j JSON) Index(i int) JSON {
+	switch x := j.v.(type) {
+	case []interface{}:
+		return JSON{v: x[i], ok: true}
+	case objT:
+		return JSON{v: x[i].v, ok: true}
+	}
+	return JSON{}
+}
+
+func (j JSON) Key(i int) string {
+	if x, ok := j.v.(objT); ok {
+		return x[i].k
+	}
+	return ""
+}
+
+func (j JSON) Get(k string) (JSON, bool) {
+	if x, ok := j.v.(objT); ok {
+		for i := len(x) - 1; i >= 0; i-- {
+			if x[i].k == k {
+				return JSON{v: x[i].v, ok: true}, true
+			}
+		}
+	}
+	return JSON{}, false
+}
+
+func (j JSON) Str() string { s, _ := j.v.(string); return s }
+func (j JSON) Int() int64 {
+	if n, ok := j.v.(json.Number); ok {
+		i, _ := n.Int64()
+		return i
+	}
+	return 0
+}
+func (j JSON) Bool() bool { b, _ := j.v.(bool); return b }
+func (j JSON) IsDateTime() bool {
+	s, ok := j.v.(string)
+	if !ok {
+		return false
+	}
+	_, err := time.Parse(time.RFC3339, s)
+	return err == nil
+}
+
+func jsonEq(a, b interface{}) bool {
+	switch x := a.(type) {
+	case nil:
+		return b == nil
+	case bool:
+		y, ok := b.(bool)
+		return ok && x == y
+	case string:
+		y, ok := b.(string)
+		return ok && x == y
+	case json.Number:
+		y, ok := b.(json.Number)
+		if !ok {
+			return false
+		}
+		xi, e1 := x.Int64()
+		yi, e2 := y.Int64()
+		if e1 == nil && e2 == nil {
+			return xi == yi
+		}
+		xf, _ := x.Float64()
+		yf, _ := y.Float64()
+		return (e1 == nil) == (e2 == nil) && xf == yf
+	case []interface{}:
+		y, ok := b.([]interface{})
+		if !ok || len(x) != len(y) {
+			return false
+		}
+		for i := range x {
+			if !jsonEq(x[i], y[i]) {
+				return false
+			}
+		}
+		return true
+	case objT:
+		y, ok := b.(objT)
+		if !ok || len(x) != len(y) {
+			return false
+		}
+		used := make([]bool, len(y))
+		for _, e := range x {
+			found := false
+			for j, f := range y {
+				if !used[j] && e.k == f.k {
+					used[j] = true
+					found = true
+					if !jsonEq(e.v, f.v) {
+						return false
+					}
+					break
+				}
+			}
+			if !found {
+				return false
+			}
+		}
+		return true
+	}
+	return false
+}
+
+func (j JSON) Equal(o JSON) bool { return jsonEq(j.v, o.v) }
+
+// JSONAny: the text of an arbitrary JSON value whose kind the model picks
+// (0 null 1 bool 2 integer 3 fraction 4 string 5 empty array 6 empty object).
+func JSONAny(name string) string {
+	full := key(name)
+	counts[full+".kind"], counts[full+".bool"], counts[full+".int"], counts[full+".str"] = 0, 0, 0, 0
+	k := num(full + ".kind")
+	b := Bool(full + ".bool")
+	i := num(full + ".int")
+	s := String(full+".str", 6)
+	switch k {
+	case 0:
+		return "null"
+	case 1:
+		if b {
+			return "true"
+		}
+		return "false"
+	case 2:
+		return fmt.Sprint(i)
+	case 3:
+		return fmt.Sprint(i%1000) + ".5"
+	case 4:
+		return JSONString(s)
+	case 5:
+		return "[]"
+	}
+	return "{}"
+}
+
+func JSONString(s string) string {
+	bs, _ := json.Marshal(s)
+	return string(bs)
+}
+
+func JSONInt(i int64) string { return fmt.Sprint(i) }
+
+// ---------------------------------------------------------------- Arbitrary / Equal (reflect)
+
+var timeType = reflect.TypeOf(time.Time{})
+var rawType = reflect.TypeOf(json.RawMessage{})
+
+func fill(v reflect.Value, name string, depth int) {
+	if depth > 6 {
+		return
+	}
+	t := v.Type()
+	switch {
+	case t == timeType:
+		v.Set(reflect.ValueOf(Time(name)))
+		return
+	case t == rawType:
+		v.Set(reflect.ValueOf(json.RawMessage(JSONAny(name))))
+		return
+	}
+	switch t.Kind() {
+	case reflect.Bool:
+		v.SetBool(Bool(name))
+	case reflect.Int, reflect.Int8, reflect.Int16, reflect.Int32, reflect.Int64:
+		v.SetInt(num(name))
+	case reflect.Uint, reflect.Uint8, reflect.Uint16, reflect.Uint32, reflect.Uint64:
+		v.SetUint(uint64(num(name)))
+	case reflect.Float32, reflect.Float64:
+		v.SetFloat(Float64(name))
+		if t.Kind() == reflect.Float32 {
+			v.SetFloat(float64(float32(v.Float())))
+		}
+	case reflect.String:
+		v.SetString(String(name, 6))
+	case reflect.Struct:
+		if t.NumField() == 2 && t.Field(0).Name == "IsSet" && t.Field(1).Name == "Value" {
+			if Bool(name + ".IsSet") {
+				v.Field(0).SetBool(true)
+				fill(v.Field(1), name+".Value", depth+1)
+			}
+			return
+		}
+		for i := 0; i < t.NumField(); i++ {
+			f := t.Field(i)
+			if !f.IsExported() && !f.Anonymous {
+				continue
+			}
+			if !v.Field(i).CanSet() {
+				continue
+			}
+			fill(v.Field(i), name+"."+f.Name, depth+1)
+		}
+	case reflect.Ptr:
+		if Choose(name+".nil", 2) == 1 {
+			return
+		}
+		e := reflect.New(t.Elem())
+		fill(e.Elem(), name+".elem", depth+1)
+		v.Set(e)
+	case reflect.Slice:
+		c := Choose(name+".len", 4)
+		if c == 0 {
+			return
+		}
+		n := c - 1
+		if t.Elem().Kind() == reflect.Uint8 {
+			v.SetBytes([]byte(String(name, 6)))
+			return
+		}
+		s := reflect.MakeSlice(t, n, n)
+		for i := 0; i < n; i++ {
+			fill(s.Index(i), fmt.Sprintf("%s.%d", name, i), depth+1)
+		}
+		v.Set(s)
+	case reflect.Map:
+		c := Choose(name+".len", 4)
+		if c == 0 {
+			return
+		}
+		m := reflect.MakeMap(t)
+		for i := 0; i < c-1; i++ {
+			k := reflect.New(t.Key()).Elem()
+			k.SetString(String(fmt.Sprintf("%s.k%d", name, i), 4))
+			e := reflect.New(t.Elem()).Elem()
+			fill(e, fmt.Sprintf("%s.v%d", name, i), depth+1)
+			m.SetMapIndex(k, e)
+		}
+		v.Set(m)
+	}
+}
+
+// Arbitrary fills *ptr from the replayed model (see the engine's naming scheme).
+func Arbitrary(ptr interface{}, name string) {
+	load()
+	fill(reflect.ValueOf(ptr).Elem(), name, 0)
+}
+
+func deepEq(a, b reflect.Value) bool {
+	if a.Type() != b.Type() {
+		return false
+	}
+	t := a.Type()
+	switch {
+	case t == timeType:
+		return a.Interface().(time.Time).Equal(b.Interface().(time.Time))
+	case t == rawType:
+		ja, oka := ParseJSON(a.Bytes())
+		jb, okb := ParseJSON(b.Bytes())
+		if !oka || !okb {
+			return oka == okb && (a.Len() == 0) == (b.Len() == 0)
+		}
+		return ja.Equal(jb)
+	}
+	switch t.Kind() {
+	case reflect.Struct:
+		for i := 0; i < t.NumField(); i++ {
+			if !deepEq(a.Field(i), b.Field(i)) {
+				return false
+			}
+		}
+		return true
+	case reflect.Slice, reflect.Array:
+		if a.Len() != b.Len() {
+			return false
+		}
+		for i := 0; i < a.Len(); i++ {
+			if !deepEq(a.Index(i), b.Index(i)) {
+				return false
+			}
+		}
+		return true
+	case reflect.Map:
+		if a.Len() != b.Len() {
+			return false
+		}
+		for _, k := range a.MapKeys() {
+			bv := b.MapIndex(k)
+			if !bv.IsValid() || !deepEq(a.MapIndex(k), bv) {
+				return false
+			}
+		}
+		return true
+	case reflect.Ptr, reflect.Interface:
+		if a.IsNil() || b.IsNil() {
+			return a.IsNil() && b.IsNil()
+		}
+		return deepEq(a.Elem(), b.Elem())
+	case reflect.Func:
+		return a.IsNil() && b.IsNil()
+	case reflect.Bool:
+		return a.Bool() == b.Bool()
+	case reflect.String:
+		return a.String() == b.String()
+	case reflect.Float32, reflect.Float64:
+		return a.Float() == b.Float()
+	case reflect.Int, reflect.Int8, reflect.Int16, reflect.Int32, reflect.Int64:
+		return a.Int() == b.Int()
+	case reflect.Uint, reflect.Uint8, reflect.Uint16, reflect.Uint32, reflect.Uint64:
+		return a.Uint() == b.Uint()
+	}
+	return reflect.DeepEqual(a.Interface(), b.Interface())
+}
+
+// Equal: Go value equality with times compared as instants and nil
+// slices/maps identified with empty ones.
+func Equal(a, b interface{}) bool {
+	if a == nil || b == nil {
+		return a == nil && b == nil
+	}
+	return deepEq(reflect.ValueOf(a), reflect.ValueOf(b))
+}
